@@ -14,6 +14,8 @@ pub mod atomic;
 pub mod frame;
 pub mod util;
 pub mod wrapper;
+#[cfg(feature = "verif")]
+pub mod verif;
 
 mod bitfield;
 use bitfield::RowId;
